@@ -284,9 +284,13 @@ def _c26_server(r, c, thorough):
         req = meth + b" " + path + b" HTTP/" + ver + b"\r\nHost: t\r\n"
         if conn:
             req += b"Connection: " + conn + b"\r\n"
-        if rb:
-            req += b"Content-Length: %d\r\n" % len(rb)
-        req += b"\r\n" + rb
+        chunked_req = bool(rb) and ver == b"1.1" and r.random() < 0.4   # request body sent chunked (seeded defect C26-1)
+        if rb and chunked_req:
+            req += b"Transfer-Encoding: chunked\r\n\r\n%x\r\n" % len(rb) + rb + b"\r\n0\r\n\r\n"
+        else:
+            if rb:
+                req += b"Content-Length: %d\r\n" % len(rb)
+            req += b"\r\n" + rb
         wire += req
         c.c("cb 0 %d %s" % (i, hx(path)))
         for n_, v_, _a in hs:
@@ -307,6 +311,10 @@ def _c26_server(r, c, thorough):
                 chunks.append(b"data")
             if meth == b"HEAD" and tag != "body-sent-on-bodiless-response":
                 chunks = []
+            if tag == "benign" and any(chunks) and code not in (204, 304) and meth != b"HEAD" and r.random() < 0.25:
+                # streamed reply whose length the caller announces itself: the library must then not chunk-encode it
+                c.c("rp %d hdr %s %s" % (i, hx(b"Content-Length"), hx(str(len(b"".join(chunks))).encode())))
+                hs.append([b"Content-Length", str(len(b"".join(chunks))).encode(), 0])
             c.c("rp %d start %d %s" % (i, code, hx(reason)))
             for ch in chunks:
                 c.c("rp %d chunk %s" % (i, hx(ch)))
@@ -657,9 +665,16 @@ def gen_c27_client(r, cid, thorough, fault=None, fixed=None):
     style = fixed.get("style") or r.choice(RESP_STYLES)
     resp, resp_closes = _resp(style)
     M = len(resp)
+    retry_then_fail = False
     if fault is None:
         fault = r.choice(["none", "refuse", "refuse-then-listen", "accept-close", "req-cut", "req-cut", "resp-cut", "resp-cut", "resp-cut",
-                          "resp-then-close", "stall", "sysfault", "junk", "double-response"])
+                          "resp-then-close", "stall", "sysfault", "junk", "double-response", "refuse-then-listen"])
+        # targeted history (seeded defect C27-1): connect refused -> retry connects -> the only request fails before its
+        # response completes -> a new request is made later on the same connection object
+        if fault == "refuse-then-listen" and not fixed and r.random() < 0.5:
+            retry_then_fail = True
+            nreq = 1
+            retries = r.choice([1, 2, 3])
     j = fixed["j"] if "j" in fixed else r.randrange(nreq)   # request index (on its connection) at which the fault strikes
     how = fixed.get("how") or r.choice(["c", "r", "w"])
     plain = bool(fixed.get("plain"))
@@ -678,7 +693,7 @@ def gen_c27_client(r, cid, thorough, fault=None, fixed=None):
         refuse = True
     elif fault == "refuse-then-listen":
         refuse = True
-        listen_after = r.randrange(0, 4)
+        listen_after = r.randrange(0, retries) if retry_then_fail else r.randrange(0, 4)   # retry_then_fail: listening before the retries run out
         fdesc["listen_after"] = listen_after
     elif fault == "accept-close":
         progs.append("0:" + r.choice(["c", "r", "w"]))
@@ -711,7 +726,9 @@ def gen_c27_client(r, cid, thorough, fault=None, fixed=None):
     elif fault == "double-response":
         progs.append(",".join(good_before + ["%d:s%s" % (L, hx(resp + resp))]))
     # connections after the faulty one: good (sometimes a second fault)
-    if r.random() < 0.15 and fault not in ("none", "refuse") and not plain:
+    if retry_then_fail:
+        progs.append(r.choice(["%d:%s" % (r.randrange(1, L + 1), r.choice(["c", "r"])), "%d:s%s,0:%s" % (L, hx(resp[:max(1, M // 2)]), r.choice(["c", "r"]))]))
+    elif r.random() < 0.15 and fault not in ("none", "refuse") and not plain:
         progs.append("%d:%s" % (r.randrange(0, L + 1), r.choice(["c", "r"])))
     progs.append(_good_prog(L, 6, style if r.random() < 0.5 else "cl"))
     short = None
@@ -731,14 +748,16 @@ def gen_c27_client(r, cid, thorough, fault=None, fixed=None):
         conargs += " timeout %d" % timeout
     if r.random() < 0.2:
         conargs += " retrytv %d" % r.choice([1, 100, 1500])
+    rowe = False
     if r.random() < 0.15:
         conargs += " flags 0x10"      # EVHTTP_CON_READ_ON_WRITE_ERROR
+        rowe = True
     if autofree:
         conargs += " autofree 1"
     c.c("con 0 0", conargs)
     # user actions
     acts = []
-    if r.random() < 0.45 and not plain:
+    if r.random() < 0.45 and not plain and not retry_then_fail:
         for _ in range(r.choice([1, 1, 2])):
             src = r.randrange(nreq)
             when = r.choice(["c", "c", "e", "k", "h"])
@@ -760,8 +779,11 @@ def gen_c27_client(r, cid, thorough, fault=None, fixed=None):
                 tgt = nreq + len([a for a in acts if a[2] == "mk"])
             acts.append((src, when, what, tgt))
     nextra = len([a for a in acts if a[2] == "mk"])
+    # a further request made on the same connection object after everything has settled (seeded defect C27-1: the
+    # connection must still be usable after connect retries and a failed exchange)
+    npost = 1 if (not autofree and not plain and not any(a[2] == "freecon" for a in acts) and (retry_then_fail or r.random() < 0.35)) else 0
     opts = []
-    for i in range(nreq + nextra):
+    for i in range(nreq + nextra + npost):
         o = ["errcb"]
         if r.random() < 0.4 or any(a[0] == i and a[1] == "k" for a in acts):
             o.append("chunkcb")
@@ -786,7 +808,7 @@ def gen_c27_client(r, cid, thorough, fault=None, fixed=None):
         if i == split_at and i > 0:
             c.c("step")
         c.c("mk %d 0 %d %s" % (i, typ, hx(urif(i))))
-    if r.random() < 0.25 and not plain:
+    if r.random() < 0.25 and not plain and not retry_then_fail:
         what = r.choice(["cancel", "cancel", "freecon"])
         if what == "freecon" and autofree:
             what = "cancel"
@@ -805,10 +827,13 @@ def gen_c27_client(r, cid, thorough, fault=None, fixed=None):
             c.c("tick")
         c.c("lsnlisten 0")
     c.c("drain 40")
+    if npost and not any(x[0] == "freecon" for x in mids):
+        c.c("mk %d 0 %d %s" % (nreq + nextra, typ, hx(urif(nreq + nextra))))
+        c.c("drain 40")
     m["risky"] = fault.startswith("refuse") and any(a[2] == "freecon" for a in acts)
     m.update(nreq=nreq, nextra=nextra, post=post, retries=retries, timeout=timeout, style=style, fault=fdesc, L=L,
              acts=[list(a) for a in acts], mids=[list(x) for x in mids], autofree=autofree, short=list(short) if short else None,
-             opts=opts)
+             opts=opts, rowe=rowe)
     return c
 
 
